@@ -46,7 +46,7 @@ fn flag_string(mut idx: u64) -> String {
     gen::tokens_to_string(&FLAGS2, &d)
 }
 
-const INPUTS: [&str; 14] = ["", "a", "b", "ab", "ba", "aa", "^", "$", "^a", "a$", "^a$", "1", "a\nb", "\u{3b1}"];
+const INPUTS: [&str; 17] = ["", "a", "b", "ab", "ba", "aa", "^", "$", "^a", "a$", "^a$", "1", "a\nb", "\u{3b1}", "A", "a\rb", "aB\n"];
 
 impl Check for C17 {
     fn id(&self) -> &'static str {
@@ -174,27 +174,38 @@ impl Check for C17 {
                     }
                 }
             }
-            // common subset: identical API observations
-            if let (Verdict::Valid(_), Out::Ok(rp)) = (&vp, &gp) {
+            // common subset: identical API observations, under each flag both dialects know
+            if let (Verdict::Valid(_), Out::Ok(_)) = (&vp, &gp) {
                 if !text.contains('^') && !text.contains('$') {
-                    for inp in &inputs {
-                        let a = imp::surface(rx, inp, "<$0>");
-                        let b = imp::surface(rp, inp, "<$0>");
-                        out.inc("states");
-                        if a.any_crash() || b.any_crash() {
-                            out.inc("inconclusive_crash");
-                            continue;
-                        }
-                        out.inc("validated");
-                        if a != b {
-                            out.fail(
-                                "C17",
-                                &Case::new(&scope_name, text, "").input(inp).repl("<$0>").api("all"),
-                                "DialectsDisagree",
-                                &format!("xpath: {}", b.show()),
-                                &format!("xsd: {}", a.show()),
-                                "",
-                            );
+                    for flags in ["", "s", "i", "x", "m"] {
+                        let (rx2, rp2) = match (imp::compile(text, flags, true), imp::compile(text, flags, false)) {
+                            (Out::Ok(a), Out::Ok(b)) => (a, b),
+                            (a, b) => {
+                                if !a.is_crash() && !b.is_crash() && a.ok().is_some() != b.ok().is_some() && !text.chars().any(|c| c.is_whitespace()) {
+                                    out.fail("C17", &Case::new(&scope_name, text, flags).api("compile"), "DialectsDisagreeOnAcceptance", "both accept (common subset)", "one rejects", "");
+                                }
+                                continue;
+                            }
+                        };
+                        for inp in &inputs {
+                            let a = imp::surface(&rx2, inp, "<$0>");
+                            let b = imp::surface(&rp2, inp, "<$0>");
+                            out.inc("states");
+                            if a.any_crash() || b.any_crash() {
+                                out.inc("inconclusive_crash");
+                                continue;
+                            }
+                            out.inc("validated");
+                            if a != b {
+                                out.fail(
+                                    "C17",
+                                    &Case::new(&scope_name, text, flags).input(inp).repl("<$0>").api("all"),
+                                    "DialectsDisagree",
+                                    &format!("xpath: {}", b.show()),
+                                    &format!("xsd: {}", a.show()),
+                                    "",
+                                );
+                            }
                         }
                     }
                 }
